@@ -1050,8 +1050,8 @@ std::pair<int, int> check_point(vf::ctx_t& c, problem_t& pb, linear_penalty_func
         c.count(std::string("value_checks:") + formula_names[formula]);
         if (R.tol_value > 0.0L)
         {
-            // how much of the tolerance the unchanged library uses (per mille), for the evidence
-            c.maxc("value_error_permille_of_tolerance", static_cast<int64_t>(std::min<ld>(1e6L, 1000.0L * std::fabs(static_cast<ld>(v) - R.value) / R.tol_value)));
+            // how much of the tolerance the unchanged library uses (parts per million), for the evidence
+            c.maxc("value_error_ppm_of_tolerance", static_cast<int64_t>(std::min<ld>(1e12L, 1e6L * std::fabs(static_cast<ld>(v) - R.value) / R.tol_value)));
         }
         if (!(std::fabs(static_cast<ld>(v) - R.value) <= R.tol_value))
         {
@@ -1074,7 +1074,7 @@ std::pair<int, int> check_point(vf::ctx_t& c, problem_t& pb, linear_penalty_func
                 const auto ui = static_cast<size_t>(i);
                 if (R.tol_grad[ui] > 0.0L)
                 {
-                    c.maxc("gradient_error_permille_of_tolerance", static_cast<int64_t>(std::min<ld>(1e6L, 1000.0L * std::fabs(static_cast<ld>(g(i)) - R.grad[ui]) / R.tol_grad[ui])));
+                    c.maxc("gradient_error_ppm_of_tolerance", static_cast<int64_t>(std::min<ld>(1e12L, 1e6L * std::fabs(static_cast<ld>(g(i)) - R.grad[ui]) / R.tol_grad[ui])));
                 }
                 if (!(std::fabs(static_cast<ld>(g(i)) - R.grad[ui]) <= R.tol_grad[ui]))
                 {
